@@ -42,6 +42,7 @@ type protoField struct {
 	msg, name string
 	repeated  bool
 	typ       string // "string", "bytes", "message", … (descriptor type, or the type spelled in the .proto)
+	typeName  string // for message/enum fields: the fully qualified type name of the descriptor
 	encoding  string
 	scalar    string
 	where     string
@@ -132,6 +133,8 @@ func decodeFileDescriptor(raw []byte, where string) (string, []protoField, int, 
 						f.repeated = v == 3
 					case num == 5 && wt == 0:
 						f.typ = descTypeNames[v]
+					case num == 6 && wt == 2:
+						f.typeName = string(fv)
 					case num == 8 && wt == 2:
 						pwRecords(fv, func(num, wt int, ov []byte, v uint64) {
 							if num == extAminoEncoding && wt == 2 {
